@@ -1,5 +1,5 @@
 """Program-level kind x statement matrix against the reference interpreter (used by C03): every statement / expression form
-with operands of every kind (mirsym/progen.kind_shapes), all literals symbolic; written lines, outcome and error class are
+with operands of every kind (mirsym/progen.kind_shapes), all literals symbolic; written lines and outcome (success / runtime error) are
 compared with mirsym/refinterp.py on every feasible path.  Forms the reference interpreter does not define (cut / join / cast
 statements, array == array, string indexing) are left to the kernel-level checks (C07, C14, C06) and marked as such."""
 import re
